@@ -105,6 +105,15 @@ def step (st : Unit) (j : Json) : Unit × Json :=
         let probes ← imgsOfJson (← field j "probes")
         let (pp, ov) := overlapProjection patches props probes
         pure (okJson (Json.mkObj [("prop", Json.arr (pp.map imgsToJson).toArray), ("overlap", imgsToJson ov)]))
+    | "forward_operator" =>
+        let patches ← imgsOfJson (← field j "patches")
+        let props ← imgsOfJson (← field j "props")
+        let probes ← imgsOfJson (← field j "probes")
+        let descan ← match j.getObjVal? "descan" with
+          | .ok (.arr a) => if a.size == 2 then do pure (some ((← floatOfJson a[0]!), (← floatOfJson a[1]!))) else throw "descan"
+          | _ => pure none
+        let (pp, ov) := forwardOperator patches props probes descan
+        pure (okJson (Json.mkObj [("prop", Json.arr (pp.map imgsToJson).toArray), ("overlap", imgsToJson ov)]))
     | "detector" =>
         let w ← imgsOfJson (← field j "waves")
         pure (okJson (rowsToJson (detector w)))
